@@ -19,7 +19,7 @@ TEXT = {
            "exactly one of packet/error) and C04_program (any IR decoder passing the static will-allocation check is panic-free). "
            "C04_wire_decoders_are_the_source: UnmarshalBinary of the nine wire types is translated statement by statement on every run (tools/gosync/wire.go); the regenerated "
            "statement lists are the model's and running them is - for every receiver value and byte string - the decoder of Model/Wire.v the theorems start from: same value, same error class, "
-           "panic exactly where it panics; C04_guarded_reader_is_the_source: buffer.get, regenerated the same way, run with any decoder on any reader state is the model's get_with. The packet-level decoders are tied by the regenerated decoder IR, buffer.getAny/packet.go by fingerprints; all of it also by correspondence "
+           "panic exactly where it panics; C04_guarded_reader_is_the_source: buffer.get, regenerated the same way, run with any decoder on any reader state is the model's get_with; C04_property_loop_is_the_source: buffer.getAny likewise is the model's getany for every property map, mode and reader state. The packet-level decoders are tied by the regenerated decoder IR, packet.go (except the allocation switch of ReadRemaining, regenerated as a table) by fingerprints; all of it also by correspondence "
            "on hostile frames with PANIC as observable; direct oracle on the implementation.",
   "note": NOTE,
   "technique": "Coq proof (invariant of the guarded reader pushed through every IR constructor) + correspondence + panic oracle",
